@@ -289,6 +289,15 @@ def run_layout(case, drv) -> Outcome:
         viol = {'signature': 'dcf:layout:positive', 'what': f'{cfg}: weights are not positive and finite'}
     a = rng.choice([2.0, 0.5, -2.0])
     st2, w2 = call(lambda: dcf_of(*[a * c for c in comps]))
+    # correspondence with the Lean model of the decomposition (M.DcfLayout): the exponent of |a| the code has is `degree`
+    corr = None
+    mdl = drv.call({'op': 'dcf_layout', 'v': [[d in sub for d in range(3)] for sub in subsets]})
+    if st2 == 'ok' and bool(torch.isfinite(w2).all()) and float(w.min()) > 0:
+        expo = float(torch.log2(w2 / w).median()) / math.log2(abs(a))
+        if abs(expo - mdl['degree']) > 0.02:
+            corr = f'{cfg}: scaling by {a} scales the weights with exponent {expo:.3f}, the model of the decomposition gives {mdl["degree"]} (d = {mdl["d_enc"]})'
+    if mdl['d_enc'] != d_enc or mdl['well_formed'] == double:
+        corr = corr or f'{cfg}: harness classification (d {d_enc}, double-counted {double}) differs from the model ({mdl})'
     if viol is None and st2 == 'ok' and not torch.allclose(w2, abs(a) ** d_enc * w, rtol=1e-3):
         ratio = float((w2 / w).median())
         viol = {'signature': f'dcf:layout:scale:{tag}', 'what': f'{cfg}: scaling k-space by {a} scales the weights by {ratio:.4g}, expected |a|^{d_enc} = {abs(a) ** d_enc:.4g}'}
@@ -306,7 +315,7 @@ def run_layout(case, drv) -> Outcome:
         if st3 == 'ok' and not torch.allclose(w.expand(w3.shape), w3, rtol=1e-3, atol=1e-6 * float(w3.max())):
             viol = {'signature': f'dcf:layout:dense:{tag}', 'what': f'{cfg}: the weights of the broadcast form differ from those of the dense form of the same trajectory '
                                                      f'(max rel dev {float(((w.expand(w3.shape) - w3).abs() / w3).max()):.3g})'}
-    return Outcome(key=('layout', case['pattern'], tuple(map(tuple, subsets)), tuple(n)), viol=viol, branches=[f'layout:{case["pattern"]}', f'layout-d:{d_enc}'], sample={**case, 'subsets': subsets})
+    return Outcome(key=('layout', case['pattern'], tuple(map(tuple, subsets)), tuple(n)), viol=viol, corr=corr, branches=[f'layout:{case["pattern"]}', f'layout-d:{d_enc}'], sample={**case, 'subsets': subsets})
 
 
 def run_glue(case, drv) -> Outcome:
